@@ -164,7 +164,8 @@ PROPERTY_INVARIANTS = ("WinnerIsArgmax", "OnlyEligibleWin", "ProvidersOfferedWin
 
 
 def _selfcheck(cfg, what):
-    r = vf.tlc(PID, "self-" + cfg.replace(".cfg", ""), "MC_Auction", cfg, workers=1, timeout=600)
+    # (small heaps: many builders share the machine and the kernel kills the largest JVMs when memory runs out)
+    r = vf.tlc(PID, "self-" + cfg.replace(".cfg", ""), "MC_Auction", cfg, workers=1, timeout=600, heap="1g")
     if what is None:
         if not r["ok"]:
             raise vf.Broken("model self-check failed: %s must pass (%s %s)\n%s" % (cfg, r["kind"], r["violated"], r["out"][-2000:]))
@@ -182,14 +183,14 @@ def model(v, tier):
     wb, wd = (45, 30) if tier == "quick" else (500, 300)      # wired family
     mcs = list(MC_QUICK) + (MC_THOROUGH if tier == "thorough" else [])
     with ThreadPoolExecutor(max_workers=8) as ex:
-        fb = ex.submit(vf.tlc_scenarios, PID, "Scen_Auction", "Scen_Auction.cfg", num=int(nb * 1.05), depth=80, name="scen-best")
+        fb = ex.submit(vf.tlc_scenarios, PID, "Scen_Auction", "Scen_Auction.cfg", num=int(nb * 1.05), depth=80, name="scen-best", heap="2g")
         fd = ex.submit(vf.tlc_scenarios, PID, "Scen_Auction", "Scen_Auction_deadline.cfg", num=int(nd * 1.05), depth=120,
-                       name="scen-deadline")
-        fwb = ex.submit(vf.tlc_scenarios, PID, "Scen_Auction", "Scen_Auction_wired.cfg", num=int(wb * 1.05), depth=80, name="scen-wired-best")
+                       name="scen-deadline", heap="2g")
+        fwb = ex.submit(vf.tlc_scenarios, PID, "Scen_Auction", "Scen_Auction_wired.cfg", num=int(wb * 1.05), depth=80, name="scen-wired-best", heap="2g")
         fwd = ex.submit(vf.tlc_scenarios, PID, "Scen_Auction", "Scen_Auction_wired_deadline.cfg", num=int(wd * 1.05), depth=120,
-                        name="scen-wired-deadline")
+                        name="scen-wired-deadline", heap="2g")
         fm = [ex.submit(vf.tlc_exhaustive, PID, "MC_Auction", cfg, workers=w, timeout=1800,
-                        coverage=(cfg == "MC_Auction_big.cfg")) for cfg, w in mcs]
+                        coverage=(cfg == "MC_Auction_big.cfg"), heap="2g" if (cfg, w) in MC_QUICK else "6g") for cfg, w in mcs]
         fs = [ex.submit(_selfcheck, cfg, what) for cfg, what in MUST_VIOLATE] + [ex.submit(_selfcheck, cfg, None) for cfg in MUST_PASS]
         for f in fm:
             v.add_mc(f.result())
